@@ -171,7 +171,9 @@ PROPERTY = Property(
         "(ambiguous index ranges, constraint on a related clp, per-index cond > 1e6 / 1e3 for NNLS) are discarded and counted."
     ),
     subs=[
-        Sub("objective", prop=prop, strategy=lambda: schemes.schemes(), budget={"quick": 1500, "thorough": 100000}),
+        Sub("objective", prop=prop, strategy=lambda: schemes.schemes(), budget={"quick": 1200, "thorough": 100000}),
+        Sub("objective_tol", prop=prop, strategy=lambda: schemes.schemes(link_tolerance=True, allow_full=False).filter(lambda c: c["clp_link_tolerance"] > 0),
+            budget={"quick": 400, "thorough": 30000}, doc="linked groups with clp_link_tolerance > 0, all three link methods"),
         Sub("independent", prop=prop_independent, strategy=lambda: schemes.schemes(max_datasets=3).filter(lambda c: len(c["groups"]) > 1),
             budget={"quick": 150, "thorough": 5000}),
     ],
